@@ -56,13 +56,14 @@ inductive Site
   | vtxAlloc            -- `vec![0u8; decompressed_frames_size]` from the header (allocation only)
   | vtxPlayerFreq       -- `sample_rate / player_frequency` with 0 (Player::new)
   | vtxLha              -- the LH5 decoder (external crate `delharc`, a parameter here) panics
+  | snaRev              -- no failure site, a behaviour switch of the repair: a 48K snapshot is refused by the 128K machine too
   deriving DecidableEq, Repr, Inhabited
 
 def Site.all : List Site :=
   [.snaIm, .snaPage, .szxIdUtf8, .szxAlloc, .szxCrtrShort, .szxCrtrUtf8, .szxZ80rShort, .szxZ80rIm,
    .szxSpcrShort, .szxSpcrBorder, .szxAyShort, .szxKeybShort, .szxAmxmShort, .szxRampShort,
    .szxRampPage, .szxRampData, .szxRampInflated, .tapArith, .tapIndex, .tapPilot, .vtxSpin,
-   .vtxScan, .vtxArith, .vtxStrings, .vtxAlloc, .vtxPlayerFreq, .vtxLha]
+   .vtxScan, .vtxArith, .vtxStrings, .vtxAlloc, .vtxPlayerFreq, .vtxLha, .snaRev]
 
 /-- Repair flags, one per site: `true` = the maintainer's check is present (the site answers with
 an `Err` instead). `Fix.none` is the code as it stands, `Fix.all` the fully repaired code. -/
